@@ -18,9 +18,13 @@ GENERIC_DTYPES = ("float64", "float32", "int16", "int32", "int64", "uint8")
 
 
 def _gen(g, shape, dtype, small=False):
+    return np.asarray(_gen0(g, shape, dtype, small), dtype=dtype)  # (a 0-d draw is a scalar: make it an array)
+
+
+def _gen0(g, shape, dtype, small=False):
     dt = np.dtype(dtype)
     if dt.kind == "f":
-        return (g.standard_normal(shape) * 100).astype(dt)
+        return np.asarray(g.standard_normal(shape) * 100).astype(dt)
     info = np.iinfo(dt)
     if small:
         # values every requested dtype can represent: a narrowing cast is then unambiguous
@@ -129,7 +133,7 @@ def gen_spec(rng, kind=None):
         if kind == "sph":
             spec["order"] = rng.choice(("01", "10"))
         return spec
-    nd = rng.choice((1, 1, 2, 2, 3))
+    nd = rng.choice((1, 1, 2, 2, 3)) if (kind == "raw" or rng.random() > 0.06) else 0  # 0-d: a stored scalar
     spec["shape"] = [rng.choice((1, 2, 3, 5, 17, 64)) for _ in range(nd)]
     spec["dtype"] = rng.choice(GENERIC_DTYPES)
     if kind == "npz":
